@@ -233,9 +233,6 @@ Fixpoint trace (cf:cfg) (s:st) (l:list op) : list (bool * (stage * list (stage *
   match l with [] => [] | o::t => let r := step cf s o in (snd r, obs (fst r)) :: trace cf (fst r) t end.
 Fixpoint gtrace (G:gst) (l:list op) : list (bool * (stage * list (stage * list bool))) :=
   match l with [] => [] | o::t => let r := gstep G o in (snd r, gobs (fst r)) :: gtrace (fst r) t end.
-(** every operation of the sequence is a run-time operation and none is a deviation event *)
-Fixpoint legal_run (cf:cfg) (s:st) (l:list op) : bool :=
-  match l with [] => true | o::t => runtime s o && legal cf s o && legal_run cf (fst (step cf s o)) t end.
 
 (** executable form of the invariants of the refinement proof (C18_Refine.v [WF], [Dyn]); sound by C18_Refine3.v;
     also evaluated by the correspondence driver on every state it reaches *)
@@ -254,3 +251,12 @@ Definition dyn_check (s:st) : bool :=
   && forallb (fun k => let c := get_ce k s in let b := get_sub (fst k) s in
         (c_verWhen c <=? getv (s_ver b) (c_dep c))
         && implb (c_ok c && (getv (s_ver b) (c_dep c) =? c_verWhen c)) (c_dep c <=? s_stage b)) (all_ce_keys s).
+
+(** operations covered by the refinement theorem: allocations and run-time operations (everything except backing the
+    state up below Instance; copies are world-level operations) *)
+Definition is_alloc (o:op) : bool :=
+  match o with AllocQ _ _ | AllocU _ _ | AllocZ _ _ | AllocDV _ _ _ | AllocAutoDV _ _ _ _ | AllocCE _ _ _ | AllocCEPre _ _ _ _ _ _ _ _ => true | _ => false end.
+Definition covered (s:st) (o:op) : bool := is_alloc o || runtime s o.
+(** every operation of the sequence is covered and none is a deviation event *)
+Fixpoint legal_run (cf:cfg) (s:st) (l:list op) : bool :=
+  match l with [] => true | o::t => covered s o && legal cf s o && legal_run cf (fst (step cf s o)) t end.
